@@ -241,7 +241,7 @@ def run(ctx):
     vcheck("general-timeouts>0", CFG_VALIDATE, "general timeouts must not be 0", fields=["general", "connect_timeout", "idle_timeout", "server_lifetime"])
     vcheck("worker_threads>0", CFG_VALIDATE, "general.worker_threads must not be 0 (tokio's runtime builder asserts)", fields=["general", "worker_threads"], consts=[0])
     vcheck("regex-has-capture-group", POOL_VALIDATE, "routing regexes need the capture group the router reads", callee_pats=["re:^regex::regex::string::Regex::captures_len$"])
-    vcheck("usernames-unique", POOL_VALIDATE, "user names are unique within a pool (they key the pools)", fields=["users"], callee_pats=["re:HashSet.*::(insert|len)$"])
+    vcheck("usernames-unique", POOL_VALIDATE, "user names are unique within a pool (they key the pools)", fields=["users", "username"], callee_pats=["re:HashSet.*::(insert|len)$"])
     vcheck("autoreload>0", CFG_VALIDATE, "general.autoreload must not be 0 (it is the period of a tokio interval, which asserts period > 0)", fields=["general", "autoreload"], consts=[0])
     vcheck("shutdown_timeout>0", CFG_VALIDATE, "general.shutdown_timeout must not be 0 (period of the interval in the SIGINT arm's timer task)", fields=["general", "shutdown_timeout"], consts=[0])
     vcheck("intercept-schema-rows-complete", PLUGINS_VALIDATE, "every schema entry of an intercept rule has a name and a type (Intercept::run indexes row[0] and row[1])", fields=["schema"])
